@@ -38,6 +38,7 @@ def ob_ite_cases(w=8, tier="quick"):
         s = ("bv", w)
         cases = [(SN.new_node(("bool",), f"root_c{i}"), SN.new_node(s, f"root_v{i}")) for i in range(n)]
         default = SN.new_node(s, "root_d")
+        c.describers.append(lambda m: {"cases": [[SN.describe(a, m), SN.describe(b, m)] for a, b in cases], "default": SN.describe(default, m)})
         ok, r = _run(c, "ite_cases", lambda: ns["ite_cases"](cases, default))
         if not ok:
             return "raised"
@@ -47,7 +48,46 @@ def ob_ite_cases(w=8, tier="quick"):
         c.check("ite_cases/first-match", r.den == spec, "ite_cases() is not the first matching case")
         return f"n={n}"
 
-    return explore(body, {"budget_s": 300, "max_depth": 2000})
+    return explore(body, {"budget_s": 300, "max_depth": 2000, "replay": replay_ite_cases})
+
+
+def replay_ite_cases(failure):
+    """the real claripy.ite_cases on the counter-model's cases against the first-match specification, decided by z3"""
+    from vf.contracts.simp import concretized
+    r = _replay_ite_cases(failure["witness"])
+    if not r.get("reproduced"):
+        r2 = _replay_ite_cases(concretized_w(failure["witness"]))
+        if r2.get("reproduced"):
+            r2["text"] = "(leaves instantiated with the counter-model's constants) " + r2["text"]
+            return r2
+    return r
+
+
+def concretized_w(wit):
+    from vf.contracts.simp import concretized
+    return {"cases": [[concretized(a), concretized(b)] for a, b in wit["cases"]], "default": concretized(wit["default"])}
+
+
+def _replay_ite_cases(wit):
+    import claripy
+    import z3 as _z3
+    from vf.contracts.simp import build_real
+    cases = [(build_real(a), build_real(b)) for a, b in wit["cases"]]
+    default = build_real(wit["default"])
+    try:
+        res = claripy.ite_cases(cases, default)
+    except Exception as e:  # noqa
+        return {"reproduced": True, "text": f"ite_cases({cases!r}, {default!r}) raised {type(e).__name__}: {e}"}
+    conv = claripy.backends.z3.convert
+    spec = conv(default)
+    for cc, v in reversed(cases):
+        spec = _z3.If(conv(cc), conv(v), spec)
+    zs = _z3.Solver(ctx=spec.ctx)
+    zs.add(conv(res) != spec)
+    r = zs.check()
+    if r == _z3.sat:
+        return {"reproduced": True, "text": f"ite_cases({cases!r}, {default!r}) = {res!r} is not the first matching case under {zs.model()}"}
+    return {"reproduced": False, "text": f"ite_cases({cases!r}, {default!r}) = {res!r}; z3 says {r} for a difference"}
 
 
 def ob_ite_dict(w=4, tier="quick"):
@@ -237,10 +277,50 @@ def shapes(seed=0, n=150, width=8, budget_s=60, known_labels=()):
         except claripy.errors.ClaripyError:
             continue
         evals += 1
+        e0 = e
+        # every other tree carries a relocatable annotation (a taint) on one inner node: traversals rebuild annotated nodes
+        # through other paths of make_like
+        if evals % 2 == 0:
+            inner = []
+
+            def walk(x):
+                if isinstance(x, claripy.ast.Base) and x.depth > 1:
+                    inner.append(x)
+                    for a_ in x.args:
+                        walk(a_)
+            walk(e)
+            if inner:
+                tgt = rng.choice(inner)
+                tagged = tgt.annotate(annos.UNIVERSE[2])
+
+                def retag(x):
+                    if not isinstance(x, claripy.ast.Base):
+                        return x
+                    if x is tgt:
+                        return tagged
+                    if x.depth == 1:
+                        return x
+                    na_ = tuple(retag(a_) for a_ in x.args)
+                    return x if all(p is q for p, q in zip(na_, x.args)) else x.make_like(x.op, na_)
+                try:
+                    e = retag(e)
+                    txt = txt + " [one inner node annotated]"
+                except claripy.errors.ClaripyError:
+                    pass
         distinct.add(e.hash())
         if len(samples) < 2:
             samples.append(txt[:200])
         memo = {}
+
+        def meta(out, name):
+            """C05 on what the utility returns: variables / symbolic / depth recomputed from the leaves"""
+            if not isinstance(out, claripy.ast.Base):
+                return
+            vs, sy, dp = compose._recompute(out)
+            if not vs <= out.variables or out.symbolic != sy or out.depth != dp or (not out.symbolic and out.variables):
+                fail(f"{name}/metadata", f"{name} returned {out!r} reporting variables {sorted(out.variables)}, symbolic {out.symbolic}, depth {out.depth}; "
+                     f"recomputed from its leaves: {sorted(vs)}, {sy}, {dp}", {"e": txt, "old": otxt, "new": ntxt})
+        meta(e, "input")
 
         def sub(x):
             if not isinstance(x, claripy.ast.Base):
@@ -257,20 +337,24 @@ def shapes(seed=0, n=150, width=8, budget_s=60, known_labels=()):
             return r
 
         def u_excavate():
+            meta(claripy.excavate_ite(e), "excavate_ite")
             if equiv(claripy.excavate_ite(e), e) == z3.sat:
                 fail("excavate_ite/meaning", "excavate_ite(e) is not equivalent to e", {"e": txt})
 
         def u_burrow():
+            meta(claripy.burrow_ite(e), "burrow_ite")
             if equiv(claripy.burrow_ite(e), e) == z3.sat:
                 fail("burrow_ite/meaning", "burrow_ite(e) is not equivalent to e", {"e": txt})
 
         def u_replace():
             # against an independent recursive substitution
+            meta(claripy.replace(e, old, new), "replace")
             if equiv(claripy.replace(e, old, new), sub(e)) == z3.sat:
                 fail("replace/meaning", "replace(e, old, new) differs from substituting old by new", {"e": txt, "old": otxt, "new": ntxt})
 
         def u_canonicalize():
             vm, cnt, ce = e.canonicalize()
+            meta(ce, "canonicalize")
             lvs = {l.hash(): l for l in e.leaf_asts() if l.op in ("BVS", "BoolS")}
             ren = {h: v for h, v in vm.items() if h in lvs}       # (replace_dict also memoises inner nodes in the same dict)
             names = [v.args[0] for v in ren.values()]
@@ -281,9 +365,11 @@ def shapes(seed=0, n=150, width=8, budget_s=60, known_labels=()):
                 fail("canonicalize/meaning", "canonicalize(e) renamed back is not equivalent to e", {"e": txt})
 
         def u_identical():
-            other = claripy.replace(e, old, new) if rng.random() < 0.5 else sub(e)
-            if e.identical(other):
-                a1, a2 = e.canonicalize()[2], other.canonicalize()[2]
+            # (on the tree without the extra annotation: BV.identical goes through the VSA backend, which rejects annotation
+            # types it does not know - part of the listed finding about identical())
+            other = claripy.replace(e0, old, new) if rng.random() < 0.5 else sub(e0)
+            if e0.identical(other):
+                a1, a2 = e0.canonicalize()[2], other.canonicalize()[2]
                 if a1 is not a2 and equiv(a1, a2) == z3.sat:
                     fail("identical/true-for-different", "identical() is True for expressions that are not equal up to renaming", {"a": repr(e)[:300], "b": repr(other)[:300]})
         for name, fn in (("excavate_ite", u_excavate), ("burrow_ite", u_burrow), ("replace", u_replace), ("canonicalize", u_canonicalize), ("identical", u_identical)):
